@@ -15,7 +15,7 @@ namespace Dulwich.RefFormat
 open Dulwich Dulwich.Gen.Refs
 
 /-- compile-time byte-string literal: `b!"refs/heads/a"` is the list of its UTF-8 bytes -/
-scoped macro "b!" s:str : term => do
+scoped macro:max "b!" s:str : term => do
   let bs := s.getString.toUTF8.toList
   let elems ← bs.toArray.mapM (fun b => `(($(Lean.quote b.toNat) : UInt8)))
   `(([$elems,*] : List UInt8))
